@@ -360,6 +360,65 @@ example : ¬ ThreadsDir ((allTypeNames.map fun t => ⟨t, 1, true, true, true, t
 example : ¬ ThreadsDir (allTypeNames.map fun t => ⟨t, if t = "model_run" then 2 else 1, true, true, true, true⟩) := by
   decide
 
+/-! ### follow-up: two more tables regenerated on every run (Tie 1) -/
+
+/-- which adapter converts an instance of a collection class, as observed on the imported code: the
+    `collection_type` of the document `to_aeof` makes of a smallest instance of the class itself
+    (`exact`) and of a smallest instance of a user-defined subclass of it (`subclass`) -/
+structure DispatchRow where
+  type : String
+  exact : String
+  subclass : String
+  deriving DecidableEq, Repr
+
+/-- every collection type of the model is converted by its own adapter, also when the object is an
+    instance of a user-defined subclass (`class LabProject(AnnotationProject)`): the model has one
+    constructor per type and treats such an instance as its base type's content -/
+def DispatchOK (tbl : List DispatchRow) : Prop :=
+  ∀ t ∈ allTypeNames, ∃ r ∈ tbl, r.type = t ∧ r.exact = t ∧ r.subclass = t
+
+instance (tbl : List DispatchRow) : Decidable (DispatchOK tbl) := by unfold DispatchOK; exact inferInstance
+
+theorem C18_dispatch_table (tbl : List DispatchRow) (h : DispatchOK tbl) (c : Collection) :
+    ∃ r ∈ tbl, r.type = c.typeName ∧ r.exact = c.typeName ∧ r.subclass = c.typeName := by
+  have hmem : c.typeName ∈ allTypeNames := by cases c <;> simp [Collection.typeName, allTypeNames]
+  exact h _ hmem
+
+example : DispatchOK (allTypeNames.map fun t => ⟨t, t, t⟩) := by decide
+/-- seeded change C02-9: a subclass of `AnnotationProject` falls to the adapter of `AnnotationSet` -/
+example : ¬ DispatchOK (allTypeNames.map fun t =>
+    ⟨t, t, if t = "annotation_project" then "annotation_set" else t⟩) := by decide
+
+/-- the positions at which the public functions take the directory (and the two other optional
+    arguments that precede or follow it) when called positionally — the convention of the positional
+    routes of the check (`io.save(obj, path, audio_dir, format)`, `io.load(path, audio_dir, format, type)`,
+    `aoef.save(obj, path, audio_dir)`, `aoef.load(path, audio_dir, type)`, `to_aeof(obj, audio_dir)`,
+    `to_soundevent(doc, audio_dir)`) -/
+def callConvention : List (String × String × Nat) :=
+  [("io.save", "audio_dir", 2), ("io.save", "format", 3), ("io.load", "audio_dir", 1), ("io.load", "format", 2),
+   ("io.load", "type", 3), ("aoef.save", "audio_dir", 2), ("aoef.load", "audio_dir", 1), ("aoef.load", "type", 2),
+   ("aoef.to_aeof", "audio_dir", 1), ("aoef.to_soundevent", "audio_dir", 1)]
+
+/-- a signature table `(function, parameter, position among the positional parameters)` agrees with the
+    convention on every function it lists (a function whose signature cannot be introspected — a
+    `*args` wrapper — is not listed; the positional routes of the correspondence decide it) -/
+def SigOK (tbl : List (String × String × Nat)) : Prop :=
+  ∀ r ∈ callConvention, (tbl.any fun x => x.1 == r.1) = true → r ∈ tbl
+
+instance (tbl : List (String × String × Nat)) : Decidable (SigOK tbl) := by unfold SigOK; exact inferInstance
+
+theorem C18_signature_table (tbl : List (String × String × Nat)) (h : SigOK tbl) (fn par : String) (i : Nat)
+    (hc : (fn, par, i) ∈ callConvention) (hl : ∃ row ∈ tbl, row.1 = fn) : (fn, par, i) ∈ tbl := by
+  apply h _ hc
+  obtain ⟨row, hrow, hfn⟩ := hl
+  exact List.any_eq_true.2 ⟨row, hrow, by simp [hfn]⟩
+
+example : SigOK callConvention := by decide
+/-- the two optional parameters of `io.save` swapped (mutant M19 of the review) -/
+example : ¬ SigOK [("io.save", "obj", 0), ("io.save", "path", 1), ("io.save", "format", 2), ("io.save", "audio_dir", 3)] := by
+  decide
+example : SigOK [] := by decide
+
 /-! ### follow-up: sessions — the file system as state, objects changed between saves
 
 `SoundeventModel/Aoef/Session.lean`: a session is a list of steps (`put`, `move`, `save`, `load`) run over two
